@@ -31,6 +31,13 @@ claim("C19",
       "sites. Partial: behaviour of the DHT library and the encodings of the private flag are outside.",
       "DESIGN.md §4 C19")
 
+claim("C01",
+      "Proof of the hash gate (a piece buffer is written only after VerifyHash accepted exactly that buffer, and a failed "
+      "disk write is never reported as success), that the piece bit / Done flag are set only in the handler of a verified "
+      "and successfully written piece, and whole-program whitelists of the functions that may write to storage or set "
+      "Piece.Done. Partial: goroutine interleavings, SHA-1 collision freeness and storage semantics are outside.",
+      "DESIGN.md §4 C01")
+
 na("C10", "liveness/progress over unbounded schedules of several goroutines: a function contract cannot state fairness or progress measures (DESIGN.md §4 C10)")
 na("C20", "data races and lock-ups quantify over schedules; the contracts are sequential and assume the single-owner discipline C20 asks to prove (DESIGN.md §4 C20)")
 for p in ["C01", "C02", "C04", "C05", "C06", "C07", "C08", "C09", "C11", "C12", "C13", "C14", "C15", "C17", "C18", "C19"]:
